@@ -360,6 +360,7 @@ type dcPop struct {
 	Cls   string `json:"cls"`   // status indicator of the reply to RETR: ok | fail | malformed | none | closed
 	Term  bool   `json:"term"`  // the multi-line reply was ended by "."
 	Stale bool   `json:"stale"` // the next command (NOOP) was answered by a left-over -ERR line
+	Junk  bool   `json:"junk"`  // ... or by something that is no status line at all (the reply went on behind its ".")
 	Lines int    `json:"lines"`
 	Login string `json:"login"`
 	dcDigest
@@ -460,9 +461,16 @@ func (e *dcEnv) dcRetr(mbox string, timeout time.Duration) (p dcPop, listed int)
 	}
 	p.dcDigest = dcDigestOf(got.Bytes())
 	if p.Term {
-		if s, ok := say("NOOP"); ok && strings.HasPrefix(s, "-ERR") {
-			p.Stale = true
-		}
+		// what does the server say next?  A correct reply to NOOP, or something left over from RETR.  The server may
+		// be in the middle of writing more (and then never reads the NOOP): read one line, then hang up.
+		_ = cc.SetWriteDeadline(time.Now().Add(timeout))
+		werr := make(chan error, 1)
+		go func() { _, err := cc.Write([]byte("NOOP\r\n")); werr <- err }()
+		s, ok := line()
+		p.Stale = ok && strings.HasPrefix(s, "-ERR")
+		p.Junk = ok && !strings.HasPrefix(s, "-ERR") && !strings.HasPrefix(s, "+OK")
+		cc.Close()
+		<-werr
 	}
 	return
 }
